@@ -523,6 +523,20 @@ pub fn load_program_from_bytes(bytes: &[u8]) -> MResult<ParsedProgram> {
   load_program_from_reader(&mut cur, total_len)
 }
 
+// Section offsets and lengths come from the header and are not trusted: a section must
+// end before the 4-byte CRC trailer, and `off + len` must not overflow.
+fn check_section(off: u64, len: u64, total_len: u64) -> MResult<()> {
+  match off.checked_add(len) {
+    Some(end) if end <= total_len.saturating_sub(4) => Ok(()),
+    _ => Err(
+      MechError::new(
+        FileTooShortError { total_len, expected_len: off.saturating_add(len).saturating_add(4) },
+        None,
+      ).with_compiler_loc()
+    ),
+  }
+}
+
 fn load_program_from_reader<R: Read + Seek>(r: &mut R, total_len: u64) -> MResult<ParsedProgram> {
   r.seek(SeekFrom::Start(0))?;
   let mut header_buf = vec![0u8; ByteCodeHeader::HEADER_SIZE];
@@ -542,7 +556,7 @@ fn load_program_from_reader<R: Read + Seek>(r: &mut R, total_len: u64) -> MResul
 
   // 2. read features
   let mut features = Vec::new();
-  if header.feature_off != 0 && header.feature_off + 4 <= total_len.saturating_sub(4) {
+  if header.feature_off != 0 && check_section(header.feature_off, 4, total_len).is_ok() {
     r.seek(SeekFrom::Start(header.feature_off))?;
     let c = r.read_u32::<LittleEndian>()? as usize;
     for _ in 0..c {
@@ -553,7 +567,7 @@ fn load_program_from_reader<R: Read + Seek>(r: &mut R, total_len: u64) -> MResul
 
   // 3. read types
   let mut types = TypeSection::new();
-  if header.types_off != 0 && header.types_off + 4 <= total_len.saturating_sub(4) {
+  if header.types_off != 0 && check_section(header.types_off, 4, total_len).is_ok() {
     r.seek(SeekFrom::Start(header.types_off))?;
     let types_count = r.read_u32::<LittleEndian>()? as usize;
     for _ in 0..types_count {
@@ -577,6 +591,7 @@ fn load_program_from_reader<R: Read + Seek>(r: &mut R, total_len: u64) -> MResul
   // 4. read const table
   let mut const_entries = Vec::new();
   if header.const_tbl_off != 0 && header.const_tbl_len > 0 {
+    check_section(header.const_tbl_off, header.const_tbl_len, total_len)?;
     r.seek(SeekFrom::Start(header.const_tbl_off))?;
     let mut tbl_bytes = vec![0u8; header.const_tbl_len as usize];
     r.read_exact(&mut tbl_bytes)?;
@@ -587,6 +602,7 @@ fn load_program_from_reader<R: Read + Seek>(r: &mut R, total_len: u64) -> MResul
   // read const blob
   let mut const_blob = vec![];
   if header.const_blob_off != 0 && header.const_blob_len > 0 {
+    check_section(header.const_blob_off, header.const_blob_len, total_len)?;
     r.seek(SeekFrom::Start(header.const_blob_off))?;
     const_blob.resize(header.const_blob_len as usize, 0);
     r.read_exact(&mut const_blob)?;
@@ -596,6 +612,7 @@ fn load_program_from_reader<R: Read + Seek>(r: &mut R, total_len: u64) -> MResul
   let mut symbols = HashMap::new();
   let mut mutable_symbols = HashSet::new();
   if header.symbols_off != 0 && header.symbols_len > 0 {
+    check_section(header.symbols_off, header.symbols_len, total_len)?;
     r.seek(SeekFrom::Start(header.symbols_off))?;
     let mut symbols_bytes = vec![0u8; header.symbols_len as usize];
     r.read_exact(&mut symbols_bytes)?;
@@ -615,6 +632,7 @@ fn load_program_from_reader<R: Read + Seek>(r: &mut R, total_len: u64) -> MResul
   // 6. read instr bytes
   let mut instr_bytes = vec![];
   if header.instr_off != 0 && header.instr_len > 0 {
+    check_section(header.instr_off, header.instr_len, total_len)?;
     r.seek(SeekFrom::Start(header.instr_off))?;
     instr_bytes.resize(header.instr_len as usize, 0);
     r.read_exact(&mut instr_bytes)?;
@@ -623,6 +641,7 @@ fn load_program_from_reader<R: Read + Seek>(r: &mut R, total_len: u64) -> MResul
   // 7. read dictionary
   let mut dictionary = HashMap::new();
   if header.dict_off != 0 && header.dict_len > 0 {
+    check_section(header.dict_off, header.dict_len, total_len)?;
     r.seek(SeekFrom::Start(header.dict_off))?;
     let mut dict_bytes = vec![0u8; header.dict_len as usize];
     r.read_exact(&mut dict_bytes)?;
